@@ -165,3 +165,63 @@ int ok_r05d_checked(const char *name)
 ERROR:
         return FAIL;
 }
+
+/* R05j ------------------------------------------------------------------ */
+struct gbuf { int *items; int n; int cap; };
+int grow(struct gbuf *g);
+int ok_r05j_append(struct gbuf *g, const int *src, int m)
+{
+        for (int i = 0; i < m; i++) {
+                g->items[g->n] = src[i];
+                g->n++;
+                if (g->n == g->cap) {
+                        RUN(grow(g));
+                }
+        }
+        return OK;
+ERROR:
+        return FAIL;
+}
+int bad_r05j_hoisted(struct gbuf *g, const int *src, int m)
+{
+        if (g->n + m >= g->cap) {
+                RUN(grow(g));                           /* grows by a fixed step only */
+        }
+        for (int i = 0; i < m; i++) {
+                g->items[g->n] = src[i];
+                g->n++;
+        }
+        return OK;
+ERROR:
+        return FAIL;
+}
+
+/* R05k ------------------------------------------------------------------ */
+struct owner { char *row; };
+int do_io(void);
+int bad_r05k_free_alias(struct owner **o, int n)
+{
+        char *cur = NULL;
+        for (int i = 0; i < n; i++) {
+                cur = o[i]->row;
+        }
+        RUN(do_io());
+        return OK;
+ERROR:
+        if (cur) {
+                free(cur);                              /* o[n-1]->row is freed again by its owner */
+        }
+        return FAIL;
+}
+int ok_r05k_moved(struct owner *o)
+{
+        char *cur = NULL;
+        cur = o->row;
+        o->row = NULL;                                  /* ownership moved to the local */
+        RUN(do_io());
+        free(cur);
+        return OK;
+ERROR:
+        free(cur);
+        return FAIL;
+}
